@@ -189,7 +189,8 @@ def match_known(known, f):
             continue
         # an entry names a function, or the public top-level definition that encloses a privately named nested function
         # (`module:factory` matches findings in `module:factory.func`, `module:factory.func.helper`, ...)
-        if e['function'] != f.function and not f.function.startswith(e['function'] + '.'):
+        if e['function'] != f.function and not f.function.startswith(e['function'] + '.') and \
+                not f.function.startswith(e['function'] + ':'):
             continue
         if norm(e['construct']) != f.construct:
             continue
